@@ -674,4 +674,73 @@ theorem mgR_init_signed_exact (C : MgCtx) (hp0 : 0 < C.p) (hpR : C.p < C.R) (hp1
   exact ⟨hrep, convertR_rep h hrep⟩
 example : convertR ⟨16, 7, 9, 2, 4, 1⟩ (initR ⟨16, 7, 9, 2, 4, 1⟩ (-3)) = 4 ∧ (-16 : Int) < -3 := by decide
 
+/-! ## Sources of every magnitude: construction / assignment / conversion of both `rmint` variants, `init` from an `Integer` -/
+
+/-- Construction (and assignment, which goes through the same converting constructor) of `rmint<K,MG_ACTIVE>` and
+    `rmint<K,MG_INACTIVE>` from EVERY value `c` of `ruint<K>` (`0 ≤ c < R`, not only reduced ones), from EVERY value of `rint<K>`
+    (the word `c` read in two's complement: both signs, the minimum `-R/2` included), from EVERY machine integer `v` (any `v ∈ Z`
+    covers every signed and unsigned type of any width, their minima included) and from EVERY big integer through `mpz_to_rmint`:
+    the Montgomery variant converted out, the non-Montgomery variant and the canonical residue coincide. -/
+theorem rmint_init_from_recint_exact (C : MgCtx) (hp0 : 0 < C.p) (hpR : C.p < C.R) (hp1 : (C.p1 * C.p) % C.R = C.R - 1)
+    (c v : Int) (hc0 : 0 ≤ c) (hc1 : c < C.R) :
+    -- from ruint<K>
+    getRuintA C (ctorRuintA C c) = c % C.p ∧ ctorRuintI C.p c = c % C.p ∧
+    -- from rint<K>
+    getRuintA C (ctorRintA C c) = sval C.R c % C.p ∧ ctorRintI C.R C.p c = sval C.R c % C.p ∧
+    -- from signed / unsigned machine integers
+    getRuintA C (ctorSignedA C v) = v % C.p ∧ ctorSignedI C.R C.p v = v % C.p ∧ getRuintA C (toMgA C v) = v % C.p ∧
+    -- from a big integer
+    getRuintA C (mpzToA C v) = v % C.p ∧ mpzToI C.p v = v % C.p ∧
+    -- every result of the non-Montgomery variant is canonical, every raw value of the Montgomery one is a Montgomery form
+    0 ≤ ctorRuintI C.p c ∧ ctorRuintI C.p c < C.p ∧ IsRep C.R C.p (ctorRuintA C c) c ∧ IsRep C.R C.p (ctorRintA C c) (sval C.R c) := by
+  have h : AdmR C := ⟨hp0, hpR, hp1⟩
+  have r1 : IsRep C.R C.p (ctorRuintA C c) c := toMgA_rep h c
+  have r2 := ctorRintA_rep h hc0 hc1
+  have r3 := ctorSignedA_rep h v
+  have r4 : IsRep C.R C.p (mpzToA C v) (v % C.p) := toMgA_rep h _
+  refine ⟨convertR_rep h r1, rfl, convertR_rep h r2, ctorRintI_eq hp0 hpR hc0 hc1, convertR_rep h r3,
+    ctorSignedI_eq hp0 hpR v, convertR_rep h (toMgA_rep h v), ?_, ?_, Int.emod_nonneg _ (by omega), Int.emod_lt_of_pos _ hp0, r1, r2⟩
+  · rw [show getRuintA C (mpzToA C v) = v % C.p % C.p from convertR_rep h r4]; exact Int.emod_emod_of_dvd _ (dvd_refl _)
+  · unfold mpzToI; exact Int.emod_emod_of_dvd _ (dvd_refl _)
+example : ctorRuintI 101 203 = 1 ∧ getRuintA (mkA 0 101) (ctorRuintA (mkA 0 101) 203) = 1 ∧
+    ctorRintI (radix 0) 101 (radix 0 - 1003) = 7 ∧ getRuintA (mkA 0 101) (ctorRintA (mkA 0 101) (radix 0 - 1003)) = 7 ∧
+    ctorSignedI (radix 0) 101 (-2147483648) = 67 ∧ sval (radix 0) (radix 0 - 1003) = -1003 := by decide
+
+/-- `==` of an `rmint` with a built-in scalar (as repaired by fix C07_7): both variants answer "the residues are equal". -/
+theorem rmint_eq_scalar_exact (C : MgCtx) (hp0 : 0 < C.p) (hpR : C.p < C.R) (hp1 : (C.p1 * C.p) % C.R = C.R - 1)
+    (a b : Int) (ha0 : 0 ≤ a) (ha1 : a < C.p) :
+    (eqScalarA C (toMgA C a) b = true ↔ a = b % C.p) ∧ (eqScalarI C.R C.p a b = true ↔ a = b % C.p) := by
+  have h : AdmR C := ⟨hp0, hpR, hp1⟩
+  have rA := toMgA_rep h a
+  have rB := ctorSignedA_rep h b
+  have hd := Int.emod_add_mul_ediv b C.p
+  constructor
+  · unfold eqScalarA
+    simp only [decide_eq_true_eq]
+    constructor
+    · intro e
+      have e1 := convertR_rep h rA
+      have e2 := convertR_rep h rB
+      rw [← e, e1, Int.emod_eq_of_lt ha0 ha1] at e2; exact e2
+    · intro e
+      exact rep_unique rA rB ⟨-(b / C.p), by rw [e]; linear_combination hd⟩
+  · unfold eqScalarI
+    simp only [decide_eq_true_eq]
+    rw [ctorSignedI_eq hp0 hpR]
+example : eqScalarI 16 7 1 (-6) = true ∧ eqScalarA ⟨16, 7, 9, 2, 4, 1⟩ (toMgA ⟨16, 7, 9, 2, 4, 1⟩ 1) (-6) = true := by decide
+
+/-- `Montgomery<ruint<K>>::init(Element&, const Integer&)` (as repaired by fix C07_6: remainder over Z first) is the canonical map
+    for EVERY integer, of any magnitude and sign; floating sources take the same path. -/
+theorem mgR_init_Z_exact (C : MgCtx) (hp0 : 0 < C.p) (hpR : C.p < C.R) (hp1 : (C.p1 * C.p) % C.R = C.R - 1)
+    (hr2 : C.r2 = (C.R * C.R) % C.p) (v : Int) :
+    IsRep C.R C.p (initZ C v) v ∧ convertR C (initZ C v) = v % C.p := by
+  have h : AdmR C := ⟨hp0, hpR, hp1⟩
+  have m0 := Int.emod_nonneg v (show C.p ≠ 0 by omega)
+  have m1 := Int.emod_lt_of_pos v hp0
+  have hd := Int.emod_add_mul_ediv v C.p
+  have r0 := (mgR_init_convert_id C hp0 hpR hp1 hr2 (v % C.p) m0 m1).2.1
+  have r : IsRep C.R C.p (initZ C v) v := rep_congr_val r0 ⟨-(v / C.p), by linear_combination hd⟩
+  exact ⟨r, convertR_rep h r⟩
+example : convertR ⟨16, 7, 9, 2, 4, 1⟩ (initZ ⟨16, 7, 9, 2, 4, 1⟩ (-1000003)) = (-1000003) % 7 := by decide
+
 end Givaro.Props.C07
